@@ -48,7 +48,7 @@ MUTATORS = {
         ("isom table", r"quimb/tensor/decomp\.py$", r"^(\s+)left_isom = absorb in \(get_U_s_VH, get_U_sVH, get_U\)\s*$", r"\1left_isom = absorb in (get_U_s_VH, get_Us_VH, get_U)"),
         ("untyped memo", r"quimb/tensor/decomp\.py$", r"^@functools\.lru_cache\(maxsize=None, typed=True\)\s*$", r"@functools.cache"),
         ("alias of None not normalised", r"quimb/tensor/tensor_core\.py$", r"^(\s+)if isinstance\(absorb, str\) and \(_ABSORB_MAP\.get\(absorb, absorb\) is None\):\s*$", r"\1if False:"),
-        ("capped spectrum before cutoff", r"quimb/tensor/decomp\.py$", r"^(\s+)max_bond=-1,\s*$", r"\1max_bond=max_bond,"),
+        ("capped spectrum before cutoff", r"quimb/tensor/decomp\.py$", r"^(\s{12,})max_bond=-1,\s*$", r"\1max_bond=max_bond,"),
         ("lower clamp", r"quimb/tensor/decomp\.py$", r"^(\s+)return max\(n_chi, 1\)\s*$", r"\1return n_chi"),
     ],
     "C06": [
